@@ -20,6 +20,7 @@ PROFILES = {
     'queue': lambda rnd: sp.gen_script_queue(rnd),
     'composed': lambda rnd: sp.gen_composed(rnd),
     'deco': lambda rnd: sp.gen_deco(rnd),
+    'monfix': lambda rnd: sp.gen_monfix(rnd),
     'varfix': lambda rnd: sp.gen_varfix(rnd),
     'compfix': lambda rnd: sp.gen_compfix(rnd),
     'vacc': lambda rnd: sp.gen_vacc(rnd),
